@@ -1019,7 +1019,8 @@ Inductive top2 : Type :=
 | TReset (var : nat) (a : addr)
 | TSave
 | TReload
-| TForget (var : nat) (a : addr).    (* registry._cache.pop(node._name, None) alone (part of TReset since the repair of C15.F29) *)
+| TForget (var : nat) (a : addr)     (* registry._cache.pop(node._name, None) alone (part of TReset since the repair of C15.F29) *)
+| TInherit (var : nat) (a : addr).   (* the registry API: node._setValue(parent.value, inherited=True), nothing else *)
 
 Definition cache_del (k : str) (c : cache) : cache :=
   filter (fun kv : str * str => negb (seq_eqb (lower k) (lower (fst kv)))) c.
@@ -1054,6 +1055,9 @@ Fixpoint trun (D : list decl) (w : tworld) (ops : list top2) : res (tworld * lis
                | TSave =>
                    do r <- tsave_all D (w_cache w) (w_glm w) now (w_vars w);
                    Ok (mktw now (w_glm w) (w_cache w) (snd r) (fst r), [])
+               | TInherit i a =>
+                   do vs <- nth_upd i (fun tv => treset (nth i D dflt_decl) (w_cache w) now tv a) (w_vars w);
+                   Ok (mktw now (w_glm w) (w_cache w) (w_file w) vs, [])
                | TForget i a =>
                    Ok (mktw now (w_glm w)
                             (cache_del (join_names (d_ns (nth i D dflt_decl) ++ last (addr_paths a) [])) (w_cache w))
@@ -1089,7 +1093,7 @@ Definition gTop2 (v : value) : top2 :=
   let i := N.to_nat (gN (nth_v 1 v)) in
   let a := gAddr (nth_v 2 v) in
   match gN (nth_v 0 v) with
-  | 0 => TSet i a (gS (nth_v 3 v)) | 1 => TRead i a | 2 => TReset i a | 3 => TSave | 4 => TReload | _ => TForget i a
+  | 0 => TSet i a (gS (nth_v 3 v)) | 1 => TRead i a | 2 => TReset i a | 3 => TSave | 4 => TReload | 5 => TForget i a | _ => TInherit i a
   end.
 
 (* ------------------------------------------------------------------ *)
